@@ -120,4 +120,42 @@ theorem flushImmutable_table (ff df : Bool) :
   unfold GenDB.flushImmutable
   cases ff <;> cases df <;> simp
 
+
+/-! ### DB.Close and the flusher loop `DB.run` -/
+
+/-- `Close`: new commits are refused first, the commit in flight is waited for (`writeLock`), the flusher is told to stop
+    and Close waits until it has drained its queue; only then the active memtable is frozen and flushed (or, when it is
+    empty, its wal deleted) -/
+theorem close_table (size : Nat) (df : Bool) :
+    GenDB.close size df [] =
+      ["state := Closed", "writeLock.Lock", "defer writeLock.Unlock", "closeC <- signal", "<-closed", "memtable.freeze",
+        if 0 < size then "flushImmutable memtable" else "wal.Delete"] := by
+  unfold GenDB.close
+  by_cases h : 0 < size <;> cases df <;> simp [h]
+
+/-- the `case imt := <-db.flushC` branch of `run`: flush, compaction check, removal of the flushed memtable under `db.mu`;
+    the loop ends afterwards iff the close signal was seen before and nothing is queued -/
+theorem runFlush_table (closed : Bool) (queued : Nat) :
+    GenDB.runFlush closed queued [] =
+      (closed && decide (queued = 0), closed,
+        ["flushImmutable", "checkAndCompact", "db.mu.Lock", "immutables.Remove Front", "db.mu.Unlock"]) := by
+  unfold GenDB.runFlush
+  cases closed <;> by_cases h : queued = 0 <;> simp [h]
+
+/-- the `case <-db.closeC` branch: the signal is remembered; the loop ends at once iff nothing is queued -/
+theorem runClose_table (closed : Bool) (queued : Nat) :
+    GenDB.runClose closed queued [] = (decide (queued = 0), true, []) := by
+  unfold GenDB.runClose
+  by_cases h : queued = 0
+  · simp [h]
+  · have : 0 < queued := by omega
+    simp [h, this]
+
+/-- the flusher never leaves its loop with a memtable still queued or before Close asked for it -/
+theorem run_exit (closed : Bool) (queued : Nat) :
+    ((GenDB.runFlush closed queued []).1 = true → closed = true ∧ queued = 0) ∧
+    ((GenDB.runClose closed queued []).1 = true → queued = 0) := by
+  rw [runFlush_table, runClose_table]
+  simp
+
 end DBTie
